@@ -128,3 +128,17 @@ func StateKey(r *replica.Replica, now int64) string {
 var _ = common.Hash{}
 var _ = config.Config{}
 var _ = state.Verified
+
+// ConsensusImage additionally drops the per-epoch ceremony database (prefix "epoch"): it is
+// node-local bookkeeping (receipt timestamps, lists serialised in map order) whose content is
+// read back as sets; what it feeds into consensus is covered by the epoch result and the roots.
+func ConsensusImage(img replica.Image) replica.Image {
+	var out replica.Image
+	for _, kv := range SharedImage(img) {
+		if bytes.HasPrefix(kv.K, []byte("epoch")) {
+			continue
+		}
+		out = append(out, kv)
+	}
+	return out
+}
